@@ -31,7 +31,7 @@ def run(rep, tier, only=None):
     import c50_family as F
     d = snapshot.scratch_dir('c50')
     shutil.copy('/verif/vf/pysym/h_c50_base.py', d)
-    nrand, maxlen, rlen, T = (10, 4, 3, 400) if tier == 'quick' else (60, 5, 4, 2400)
+    nrand, maxlen, rlen, T = (10, 4, 3, 800) if tier == 'quick' else (60, 5, 4, 2400)
     lexicons = F.FIXED + F.random_lexicons(rep.seed, nrand)
     maxlens = [maxlen] * len(F.FIXED) + [rlen] * nrand
     H = os.path.join(d, 'h_c50.py')
